@@ -37,6 +37,10 @@ def doc_kinds(repo):
 
 
 def machines(repo):
+    from .linear import set_helper_resolver
+    lay = repo.module('layout')
+    set_helper_resolver(lambda name: lay.funcs[name].node if name in lay.funcs and lay.funcs[name].parent is None
+                        and name not in ('best_layout', 'fast_fitting_predicate', 'smart_fitting_predicate') else None)
     out = {}
     for name in ('best_layout', 'fast_fitting_predicate', 'smart_fitting_predicate'):
         out[name] = find_machine(repo.func('layout', name))
